@@ -19,19 +19,23 @@ type dupScenario struct {
 	setup  []string  // calls made sequentially first
 	calls  [2]string // the two concurrent clients; a client makes its calls (separated by ",") one after the other
 	target string    // transaction the scenario is about
+	after  []string  // calls made sequentially once the concurrent ones have returned (the repetition that comes later)
 }
 
 var dupScenarios = []dupScenario{
-	{"Confirm||Confirm", []string{"Propose:c1"}, [2]string{"Confirm:B", "Confirm:B"}, "c1"},
-	{"Confirm||Reject", []string{"Propose:c1"}, [2]string{"Confirm:B", "Reject:B"}, "c1"},
-	{"Reject||Reject", []string{"Propose:c1"}, [2]string{"Reject:B", "Reject:B"}, "c1"},
-	{"Propose(c1)||Propose(c1)", nil, [2]string{"Propose:c1", "Propose:c1"}, "c1"},
-	{"Propose(s1)||Propose(s1)", nil, [2]string{"Propose:s1", "Propose:s1"}, "s1"},
+	{"Confirm||Confirm", []string{"Propose:c1"}, [2]string{"Confirm:B", "Confirm:B"}, "c1", nil},
+	{"Confirm||Reject", []string{"Propose:c1"}, [2]string{"Confirm:B", "Reject:B"}, "c1", nil},
+	{"Reject||Reject", []string{"Propose:c1"}, [2]string{"Reject:B", "Reject:B"}, "c1", nil},
+	{"Propose(c1)||Propose(c1)", nil, [2]string{"Propose:c1", "Propose:c1"}, "c1", nil},
+	{"Propose(s1)||Propose(s1)", nil, [2]string{"Propose:s1", "Propose:s1"}, "s1", nil},
 	// paid contract (data and spice): concurrent proposals must leave it awaiting, unsealed
-	{"Propose(m1)||Propose(m1)", nil, [2]string{"Propose:m1", "Propose:m1"}, "m1"},
+	{"Propose(m1)||Propose(m1)", nil, [2]string{"Propose:m1", "Propose:m1"}, "m1", nil},
 	// the second client re-proposes the contract and confirms again while the first confirmation is in flight:
 	// the only way two confirmations of one contract can both get past the awaiting cache and reach CreateLeaf
-	{"Confirm||Propose(c1),Confirm", []string{"Propose:c1"}, [2]string{"Confirm:B", "Propose:c1,Confirm:B"}, "c1"},
+	{"Confirm||Propose(c1),Confirm", []string{"Propose:c1"}, [2]string{"Confirm:B", "Propose:c1,Confirm:B"}, "c1", nil},
+	// ... and the call is repeated once more afterwards: what a refused concurrent call left behind shows in the repetition
+	{"Propose(s1)||Propose(s1);Propose(s1)", nil, [2]string{"Propose:s1", "Propose:s1"}, "s1", []string{"Propose:s1"}},
+	{"Confirm||Propose(c1),Confirm;Propose(c1),Confirm", []string{"Propose:c1"}, [2]string{"Confirm:B", "Propose:c1,Confirm:B"}, "c1", []string{"Propose:c1", "Confirm:B"}},
 }
 
 var schedFx *fixture
@@ -83,6 +87,10 @@ func dupBody(sc dupScenario) func(x *sched.X) {
 		vsched.Join(hs...)
 		vsched.Settle()
 		vsched.Quiet(true)
+		for _, ev := range sc.after {
+			fx.send(fx.buildWrite(ev))
+			vsched.Settle()
+		}
 		o.final = fx.snap()
 		o.sealedN = count(o.final.ledger, sc.target)
 		o.awaiting = count(o.final.trxs, sc.target) > 0 || count(o.final.lists["A"], sc.target) > 0 || count(o.final.lists["B"], sc.target) > 0
